@@ -22,10 +22,12 @@ type writeShape struct {
 	obj   bool
 	any   bool
 	roots map[ssa.Value]bool // map keys only: the maps written are exactly the values of these
+	objs  map[ssa.Value]bool // cell keys: local allocations (not yet escaped) that were written
+	nonObj bool              // some write is not to such an object
 }
 
 func newShape() *writeShape {
-	return &writeShape{fids: map[int]bool{}, roots: map[ssa.Value]bool{}}
+	return &writeShape{fids: map[int]bool{}, roots: map[ssa.Value]bool{}, objs: map[ssa.Value]bool{}}
 }
 
 func (s *writeShape) merge(o *writeShape) bool {
@@ -41,6 +43,15 @@ func (s *writeShape) merge(o *writeShape) bool {
 			s.roots[r] = true
 			ch = true
 		}
+	}
+	for r := range o.objs {
+		if !s.objs[r] {
+			s.objs[r] = true
+			ch = true
+		}
+	}
+	if o.nonObj && !s.nonObj {
+		s.nonObj, ch = true, true
 	}
 	if o.elem && !s.elem {
 		s.elem, ch = true, true
@@ -165,6 +176,7 @@ type modAnalysis struct {
 	sets     map[*ssa.Function]*modset
 	keyTypes map[string]types.Type
 	results  map[*ssa.Function][]resKind // per result: fresh / alias of parameter / unknown
+	escapes  map[*ssa.Function]*escapeInfo
 }
 
 func (w *world) computeModsets() *modAnalysis {
@@ -216,6 +228,22 @@ func (w *world) computeModsets() *modAnalysis {
 				}
 			}
 		}
+	}
+	freshResultCall = func(call *ssa.Call) bool {
+		if call.Call.Signature().Results().Len() != 1 {
+			return false
+		}
+		fs, unk := ma.callees(call.Common())
+		if unk != "" || len(fs) == 0 {
+			return false
+		}
+		for _, f := range fs {
+			rk, ok := ma.results[f]
+			if !ok || len(rk) != 1 || rk[0].kind != rFresh || f.Blocks == nil {
+				return false
+			}
+		}
+		return true
 	}
 	for changed := true; changed; {
 		changed = false
@@ -382,8 +410,12 @@ func callArgs(c *ssa.CallCommon) []ssa.Value {
 	return c.Args
 }
 
-func (ma *modAnalysis) recordStore(ms *modset, addr ssa.Value, t types.Type, in map[*ssa.BasicBlock]bool) {
-	kind, _ := ma.valueRoot(addr, in, 0)
+func (ma *modAnalysis) recordStore(ms *modset, st *ssa.Store, addr ssa.Value, t types.Type, in map[*ssa.BasicBlock]bool) {
+	kind, root := ma.valueRoot(addr, in, 0)
+	localObj := false
+	if kind == rValue && st != nil && isLocalAllocation(root) && ma.escape(st.Parent()).safeStore(st, root) {
+		localObj = true
+	}
 	for _, lf := range ma.c.leaves(t) {
 		key := ma.cellKey(lf.typ)
 		if kind == rFresh {
@@ -391,6 +423,11 @@ func (ma *modAnalysis) recordStore(ms *modset, addr ssa.Value, t types.Type, in 
 			continue
 		}
 		sh := ms.shape(key)
+		if localObj {
+			sh.objs[root] = true
+		} else {
+			sh.nonObj = true
+		}
 		if len(lf.fids) > 0 {
 			sh.fids[lf.fids[len(lf.fids)-1]] = true
 			continue
@@ -463,6 +500,9 @@ func (ma *modAnalysis) mergeCallee(ms *modset, cs *modset, call *ssa.CallCommon,
 		sh.elem = sh.elem || s.elem
 		sh.obj = sh.obj || s.obj
 		sh.any = sh.any || s.any
+		if strings.HasPrefix(k, "H_") {
+			sh.nonObj = true
+		}
 		for r := range s.roots {
 			p, ok := r.(*ssa.Parameter)
 			idx := -1
@@ -511,7 +551,7 @@ func (ma *modAnalysis) region(fn *ssa.Function, in map[*ssa.BasicBlock]bool) *mo
 				if a := rootAlloc(x.Addr); a != nil && isRegAlloc(a) {
 					continue
 				}
-				ma.recordStore(ms, x.Addr, x.Val.Type(), in)
+				ma.recordStore(ms, x, x.Addr, x.Val.Type(), in)
 			case *ssa.Alloc:
 				if isRegAlloc(x) {
 					continue
@@ -619,4 +659,143 @@ func (db *contractDB) modKey(k string) string {
 		return "G_" + k
 	}
 	return k
+}
+
+// ---------------------------------------------------------------------------------------------
+// Escape information: for every local allocation (Alloc, MakeSlice, append result) the instructions through
+// which a reference to it may leave the function's registers (stored to memory, passed to a call, returned,
+// boxed, merged by a phi). A store into the object is "safe" if no such instruction can execute before it.
+
+type escapeInfo struct {
+	fn      *ssa.Function
+	escapes map[ssa.Value][]ssa.Instruction
+	reach   map[*ssa.BasicBlock]map[*ssa.BasicBlock]bool
+}
+
+func isLocalAllocation(v ssa.Value) bool {
+	switch x := v.(type) {
+	case *ssa.Alloc, *ssa.MakeSlice:
+		return true
+	case *ssa.Call:
+		if b, ok := x.Call.Value.(*ssa.Builtin); ok {
+			return b.Name() == "append"
+		}
+		return freshResultCall != nil && freshResultCall(x)
+	}
+	return false
+}
+
+// freshResultCall is set by the analysis: calls of module functions whose single result is always a fresh object.
+var freshResultCall func(*ssa.Call) bool
+
+func (ma *modAnalysis) escape(fn *ssa.Function) *escapeInfo {
+	if ma.escapes == nil {
+		ma.escapes = map[*ssa.Function]*escapeInfo{}
+	}
+	if ei, ok := ma.escapes[fn]; ok {
+		return ei
+	}
+	ei := &escapeInfo{fn: fn, escapes: map[ssa.Value][]ssa.Instruction{}, reach: map[*ssa.BasicBlock]map[*ssa.BasicBlock]bool{}}
+	ma.escapes[fn] = ei
+	for _, b := range fn.Blocks {
+		for _, ins := range b.Instrs {
+			v, ok := ins.(ssa.Value)
+			if !ok || !isLocalAllocation(v) {
+				continue
+			}
+			ei.collect(v, v, 0)
+		}
+	}
+	// parameters: when the function is inlined an argument may be a local object of the caller
+	for _, p := range fn.Params {
+		ei.collect(p, p, 0)
+	}
+	return ei
+}
+
+// collect records the escaping uses of the object obj through the derived value v.
+func (ei *escapeInfo) collect(obj, v ssa.Value, depth int) {
+	refs := v.Referrers()
+	if refs == nil || depth > 6 {
+		return
+	}
+	for _, r := range *refs {
+		switch x := r.(type) {
+		case *ssa.FieldAddr:
+			if x.X == v {
+				ei.collect(obj, x, depth+1)
+			}
+		case *ssa.IndexAddr:
+			if x.X == v {
+				ei.collect(obj, x, depth+1)
+			}
+		case *ssa.Slice:
+			if x.X == v {
+				ei.collect(obj, x, depth+1)
+			}
+		case *ssa.MakeInterface:
+			ei.collect(obj, x, depth+1) // the reference is still only in registers
+		case *ssa.ChangeInterface:
+			ei.collect(obj, x, depth+1)
+		case *ssa.ChangeType:
+			ei.collect(obj, x, depth+1)
+		case *ssa.Return:
+			ei.escapes[obj] = append(ei.escapes[obj], x)
+		case *ssa.UnOp:
+			// load: not an escape
+		case *ssa.Store:
+			if x.Val == v {
+				ei.escapes[obj] = append(ei.escapes[obj], x)
+			}
+		case *ssa.DebugRef:
+		case *ssa.Call:
+			if b, ok := x.Call.Value.(*ssa.Builtin); ok && (b.Name() == "len" || b.Name() == "cap") {
+				continue
+			}
+			ei.escapes[obj] = append(ei.escapes[obj], x)
+		default:
+			ei.escapes[obj] = append(ei.escapes[obj], r)
+		}
+	}
+}
+
+func (ei *escapeInfo) reachable(from *ssa.BasicBlock) map[*ssa.BasicBlock]bool {
+	if r, ok := ei.reach[from]; ok {
+		return r
+	}
+	r := map[*ssa.BasicBlock]bool{}
+	stack := append([]*ssa.BasicBlock{}, from.Succs...)
+	for len(stack) > 0 {
+		b := stack[len(stack)-1]
+		stack = stack[:len(stack)-1]
+		if r[b] {
+			continue
+		}
+		r[b] = true
+		stack = append(stack, b.Succs...)
+	}
+	ei.reach[from] = r
+	return r
+}
+
+// safeStore: no escaping use of obj can execute before the store st.
+func (ei *escapeInfo) safeStore(st ssa.Instruction, obj ssa.Value) bool {
+	sb := st.Block()
+	for _, e := range ei.escapes[obj] {
+		eb := e.Block()
+		if ei.reachable(eb)[sb] {
+			return false
+		}
+		if eb == sb {
+			for _, ins := range sb.Instrs {
+				if ins == e {
+					return false // e comes first
+				}
+				if ins == st {
+					break
+				}
+			}
+		}
+	}
+	return true
 }
